@@ -157,6 +157,10 @@ func runHistoryFrom(c *core.Ctx, r *core.Result, ho histOpt, cur *tree.Tree, edi
 		}
 		ro.Old = old
 		if sf, ok := fs.(*synthFS); ok {
+			if core.NewRand(core.Mix(c.Seed, "hist-symlink-size-zero", c.Index)).P(1, 3) {
+				sf.SymSizeZero = true
+				r.Count("rounds_from_a_source_reporting_size_0_for_symlinks", 1)
+			}
 			// some new files are announced larger than the bytes that follow
 			// (C07 does the same from its reference sender): what is stored,
 			// and hashed, is what was sent
